@@ -174,6 +174,15 @@ fn one_frame(t: &mut Tctx, ai: usize, algos: &[CrcAlgo], shape: &Shape, val: &Va
         }
     }
     let _ = take_strs();
+    // the exact frame and the frame followed by other bytes, through both entry points
+    if decode_and_check(t, a, shape, &frame) != Some(frame.len()) {
+        t.st.violation("C10:valid-frame-rejected", format!("{}: the encoder's own frame was not accepted by both entry points", a.name), rpv(&frame));
+        return;
+    }
+    if !tail.is_empty() && decode_and_check(t, a, shape, &input) != Some(frame.len()) {
+        t.st.violation("C10:valid-frame-rejected", format!("{}: a valid frame followed by {} other bytes was not accepted with the frame's length", a.name, tail.len()), rpv(&input));
+        return;
+    }
     let n = plain.len();
     let w = a.bytes * 8;
     // (d1) every single bit flip of the whole frame
@@ -342,9 +351,10 @@ pub fn run(cfg: &Cfg) -> Report {
                 let exhaustive = w <= 16 && rep_i < 2.max(frames / 4);
                 let (shape, val) = if !exhaustive && rep_i % 5 == 4 {
                     // a single block write of >= 32 bytes (str / bytes payload) inside a small struct
-                    let n = t.rng.range(32, 40);
+                    let n = if rep_i % 10 == 9 { t.rng.range(65, 140) } else { t.rng.range(32, 40) };
                     let shape = Shape::Struct("T0", vec![("f0", Shape::U8), ("f1", if rep_i % 2 == 0 { Shape::Str } else { Shape::Bytes }), ("f2", Shape::U16)]);
-                    let payload = if rep_i % 2 == 0 { Val::Str("k".repeat(n)) } else { Val::Bytes(t.rng.bytes(n)) };
+                    // both a repeating run (period divides 64) and a non-repeating one
+                    let payload = if rep_i % 2 == 0 { Val::Str(if rep_i % 4 == 0 { "k".repeat(n) } else { (0..n).map(|i| (b'a' + (i % 23) as u8) as char).collect() }) } else { Val::Bytes(t.rng.bytes(n)) };
                     let val = Val::Struct("T0", vec![("f0", Val::U8(7)), ("f1", payload), ("f2", Val::U16(513))]);
                     t.st.count("frames_with_block_write_ge_32");
                     (shape, val)
@@ -362,7 +372,7 @@ pub fn run(cfg: &Cfg) -> Report {
                     };
                     (shape, val)
                 };
-                if spec::encode(&val).len() > 48 {
+                if spec::encode(&val).len() > 160 {
                     continue;
                 }
                 if exhaustive {
